@@ -191,4 +191,36 @@ def cases():
     ws("two-services-two-bindings", binding=GOOD_BIND + GOOD_BIND.replace('name="B"', 'name="B2"'), service=GOOD_SVC + GOOD_SVC.replace('name="S"', 'name="S2"').replace("t:B", "t:B2"))
     ws("keyword-names", types=GOOD_TYPES.replace('name="Req"', 'name="self"').replace('name="a"', 'name="Self"'),
        messages=GOOD_MSG.replace("t:Req", "t:self"))
+    # ---- hostile documentation text at every place where documentation is carried into the output
+    from xml.sax.saxutils import escape
+    for cls, text in DOC_TEXTS.items():
+        d = f"<xs:annotation><xs:documentation>{escape(text)}</xs:documentation></xs:annotation>"
+        xsd(f"documentation:{cls}@simple-type", f'<xs:simpleType name="S">{d}<xs:restriction base="xs:string"><xs:maxLength value="3"/></xs:restriction></xs:simpleType>')
+        xsd(f"documentation:{cls}@complex-type-attributes-only", f'<xs:complexType name="C">{d}<xs:attribute name="a" type="xs:int"/></xs:complexType>')
+        xsd(f"documentation:{cls}@complex-type", f'<xs:complexType name="C">{d}<xs:sequence><xs:element name="a" type="xs:int">{d}</xs:element></xs:sequence><xs:attribute name="b" type="xs:int">{d}</xs:attribute></xs:complexType>')
+        xsd(f"documentation:{cls}@element", f'<xs:element name="E">{d}<xs:complexType>{d}<xs:sequence><xs:element name="a" type="xs:int"/></xs:sequence></xs:complexType></xs:element>')
+        xsd(f"documentation:{cls}@enumeration", f'<xs:simpleType name="S"><xs:restriction base="xs:string"><xs:enumeration value="A">{d}</xs:enumeration></xs:restriction></xs:simpleType>')
+        ws(f"documentation:{cls}@wsdl-operation", port=GOOD_PORT.replace('<wsdl:operation name="Op">', f'<wsdl:operation name="Op"><wsdl:documentation>{escape(text)}</wsdl:documentation>'))
     return out
+
+
+# documentation texts whose line structure, indentation or characters invite slicing and trimming mistakes
+DOC_TEXTS = {
+    "nbsp-and-ascii-indent": "first\n   three spaces\n\u00a0\u00a0nbsp indented\n   again",
+    "ideographic-space-indent": "a\n\u3000\u3000b\n  c\n\u3000c",
+    "tabs-and-spaces": "a\n\t\tb\n    c\n \t d",
+    "crlf": "a\r\n  b\r\n  c\r\n",
+    "whitespace-only-lines": "a\n   \n\u2003\n\t\n b",
+    "emoji": "x\n \U0001F600\U0001F600 y\n  z\U0001F9D1\u200d\U0001F4BB",
+    "combining-marks": "e\u0301\n  e\u0301\u0301 q\n \u0301",
+    "zero-width": "a\u200b\n \u200bb\n\ufeffc",
+    "line-separators": "a\u2028 b\u2029 c\u0085 d\u000b e\u000c f",
+    "right-to-left": "a\n \u202eabc\n  \u05d0\u05d1\u202c",
+    "very-long-line": "x" * 20000,
+    "many-lines": "\n".join(" " + "  " * (i % 7) + f"l{i}" for i in range(3000)),
+    "trailing-backslashes": "a\\\n  b\\\n\\",
+    "leading-newlines": "\n\n  a\n b\n\n",
+    "comment-markers": "*/ /// //! /** #[doc = \"x\"] */",
+    "empty": "",
+    "single-multibyte": "\u00a0",
+}
